@@ -33,6 +33,7 @@ int main() {
         if (auto v = opt_int(in)) { options.persistent = *v != 0; options.persistent_set = true; }
         if (auto v = opt_int(in)) { options.wipe_passes = static_cast<std::uint8_t>(*v); options.wipe_passes_set = true; }
         if (auto v = opt_int(in)) options.key_rotation_seconds = static_cast<std::uint64_t>(*v);
+        if (auto v = opt_int(in)) options.fetch_parallel = static_cast<std::uint16_t>(*v);
         const auto json = in.str();
         const auto path = std::filesystem::temp_directory_path() / ("verif-c32-" + std::to_string(::getpid()) + "-" + std::to_string(counter++) + ".json");
         { std::ofstream f(path, std::ios::binary | std::ios::trunc); f << json; }
@@ -53,5 +54,6 @@ int main() {
         if (options.persistent_set) { out.put(1); out.put(options.persistent ? 1 : 0); } else out.put(0);
         if (options.wipe_passes_set) { out.put(1); out.put(options.wipe_passes); } else out.put(0);
         put_opt(out, options.key_rotation_seconds);
+        put_opt(out, options.fetch_parallel);
     }, 60);
 }
